@@ -1,7 +1,7 @@
 CONSTANTS Pgnos = {257} Subnos = {0, 1} Sizes = {2, 3} Fns = {"unknown"} NSlots = 2 NNSlots = 2
-  MaxOps = 10 MaxPuts = 4 Limits = {4} NetLimit = 1 Policy = "impl" SkipCollected = TRUE
+  MaxOps = 10 MaxPuts = 4 Limits = {4} NetLimit = 1 Policy = "impl" SkipCollected = TRUE ExactFirst = TRUE
   GetMasks = {65535} ClockVals = {} MaxNets = 4
 SPECIFICATION Spec
 CONSTRAINT Bounded
-INVARIANTS TypeOK RefsAreHandles HeldAlive ListsOK WithinLimit NetsOK StatOK NoDupVictim
+INVARIANTS TypeOK RefsAreHandles HeldAlive ListsOK WithinLimit NetsOK StatOK NoDupVictim UniqueKey
 CHECK_DEADLOCK FALSE
